@@ -85,8 +85,9 @@ REGISTRY.update({
                 theorems=["C11_ids_activate_holds", "C11_ids_start_holds", "C11_ids_ledgers_holds", "C11_ids_step_holds",
                           "C11_no_internal_error_holds", "C07_perm_holds"],
                 corr=["sched.status", "sched.rid", "sched.count", "reb.status", "reb.rid", "reb.count", "reb.blocks", "reb.carry",
+                      "reb.ledger_i", "reb.ledger_h", "reb.dmg", "reb.hdmg", "deliver.rebuild_prod",
                       "delta.capital", "delta.arbitrary", "events.error", "rec.oracle"],
-                monitors=[M.mon_run_ok("C11")], extra=X.extra_c11),
+                monitors=[M.mon_run_ok("C11"), M.mon_c08_as("C11"), M.mon_c07_as("C11")], extra=X.extra_c11),
 })
 
 RUN_FILES = ["Model/InitSim.v", "Spec/StatementsRun.v"]
